@@ -11,11 +11,12 @@ import KrakenModel.Model.PeerStore
                              if len(peers) == 0 → 500 "no peers available"
                              SortPeers(peer, peers)
 
-  `SortPeers` drops the announcer and sorts with `sort.Slice` (not stable): its result is *some*
-  permutation of the remaining peers that is ordered by priority — `Admissible` — and the theorems
-  are about every such result.  The announcer is recognised by its peer id (the repaired
-  behaviour, see known/C26.json: the original code compared `*core.PeerInfo` pointers, and the
-  peers returned by the store are fresh objects, so the announcer was never recognised).
+  `SortPeers` drops the announcer, keeps every other peer id once and sorts with `sort.Slice` (not
+  stable): its result is *some* permutation of the remaining peers that is ordered by priority —
+  `Admissible` — and the theorems are about every such result.  The announcer is recognised by its
+  peer id and duplicates of a peer id are dropped (the repaired behaviour, see known/C26.json: the
+  original code compared `*core.PeerInfo` pointers, so the announcer was never recognised, and handed
+  out a peer id as often as the stores listed it).
 -/
 namespace KrakenModel.Handout
 open KrakenModel.PeerStore
@@ -33,9 +34,16 @@ def prio : Policy → Info → Nat
 /-- `config.applyDefaults` -/
 def effLimit (cfg : Int) : Int := if cfg = 0 then 50 else cfg
 
-/-- what `SortPeers` keeps: everything but the announcer -/
+/-- the `seen` map of `SortPeers`: a peer id is kept once, at its first occurrence -/
+def dedupAux (seen : List Nat) : List Info → List Info
+  | [] => []
+  | x :: xs => if x.id ∈ seen then dedupAux seen xs else x :: dedupAux (x.id :: seen) xs
+
+def dedupById (l : List Info) : List Info := dedupAux [] l
+
+/-- what `SortPeers` keeps: everything but the announcer, each peer id once -/
 def candidates (src : Info) (peers origins : List Info) : List Info :=
-  (peers ++ origins).filter (fun p => p.id ≠ src.id)
+  dedupById ((peers ++ origins).filter (fun p => p.id ≠ src.id))
 
 def Sorted (pol : Policy) (l : List Info) : Prop := l.Pairwise (fun a b => prio pol a ≤ prio pol b)
 
@@ -60,5 +68,24 @@ def respond (src : Info) (peers origins out : List Info) : Result :=
 
 instance (pol : Policy) (l : List Info) : Decidable (Sorted pol l) := by
   unfold Sorted; exact inferInstance
+
+structure Cfg where
+  limit : Int      -- PeerHandoutLimit as configured
+  pol : Policy
+  deriving Repr, DecidableEq
+
+/-- `Server.announce` run by thread `t` with nothing interleaved, on the peer-store model:
+UpdatePeer(h, src); completion short-circuit; GetPeers(h, effLimit) drawing permutation `perm`;
+origins appended; SortPeers (here: the stable sort — any `Admissible` order is a possible answer).
+`none`: `perm` is not a permutation of the stored peers' indexes. -/
+def announceSeq (cfg : Cfg) (s : State) (t : Nat) (h : Hash) (src : Info) (origins : List Info)
+    (perm : List Nat) : State × Option Result :=
+  let s1 := (updateSeq t h src.id ⟨src.ip, src.port, src.complete⟩).foldl step s
+  let s2 := step s1 (.getA t h (effLimit cfg.limit))
+  let r : Option (List Info) :=
+    match alook s1.index h with
+    | none => some []                       -- GetPeers of an unknown torrent: nil
+    | some _ => getOut s2 t perm
+  (step s2 (.getB t perm), r.map fun peers => respond src peers origins (sortStable cfg.pol (candidates src peers origins)))
 
 end KrakenModel.Handout
